@@ -110,6 +110,8 @@ Step(e) ==
     [] e.ev = "Cycle" -> R(<<>>, "cycle", [j \in 1..NB |-> AfterCycle(BB[j])], occ, known)
     [] e.ev = "Occupy" -> R(Cl(~Busy(B, e.p), "harness:occupy-busy-port"), "occupy", BB, occ \cup {e.p}, known)
     [] e.ev = "Free" -> R(<<>>, "free", BB, occ \ {e.p}, known)
+    [] e.ev = "NetErr" -> R(Cl(~e.raised, "X02:error-report-raised"), IF e.handed THEN "net-error" ELSE "net-error-nobody-listens",
+                            [j \in 1..NB |-> AfterNetError(BB[j])], occ, known)
     [] e.ev = "Obs" -> LET j == JudgeObs(e) IN R(j.why, j.tag, BB, occ, known)
     [] e.ev = "Dgram" -> LET j == JudgeDgram(e) IN R(j.why, j.tag, BB, occ, known)
     [] e.ev = "Stray" -> R(<<"C07:callback-outside-datagram-processing">> \o (IF \E j \in 1..NB : BB[j].running THEN <<>> ELSE <<"C17:callback-after-stop">>),
